@@ -650,6 +650,65 @@ def rule_membership(model):
                                   f'empty value ({key}="") is treated as if '
                                   'the option was not given', node=hit,
                                   ctx=callee)
+    # the option dictionary itself handed to a helper together with a
+    # constant option name: helper(args, md, 'size', default) -- inside, the
+    # value read by that name must not be consulted by its truth either
+    for n in own_nodes(ren.node):
+        if not isinstance(n, ast.Call):
+            continue
+        for t in model.resolve_callee(n.func, ren):
+            if t[0] != 'func':
+                continue
+            callee = t[1]
+            ps = callee.params()
+            off = 1 if callee.cls is not None and ps[:1] == ['self'] else 0
+            pdict = pkey = None
+            optname = None
+            for i, a in enumerate(n.args):
+                if i + off >= len(ps):
+                    continue
+                if norm(a) in names:
+                    pdict = ps[i + off]
+                if isinstance(a, ast.Constant) and isinstance(a.value, str):
+                    pkey, optname = ps[i + off], a.value
+            if not (pdict and pkey):
+                continue
+            vals = set()
+            for x in own_nodes(callee.node):
+                if isinstance(x, ast.Assign) and isinstance(
+                        x.targets[0], ast.Name) and any(
+                        isinstance(y, ast.Subscript) and
+                        norm(y.value) == pdict and norm(y.slice) == pkey
+                        for y in ast.walk(x.value)):
+                    vals.add(x.targets[0].id)
+            for x in own_nodes(callee.node):
+                hit = None
+                if isinstance(x, ast.BoolOp) and any(
+                        isinstance(v, ast.Name) and v.id in vals
+                        for v in x.values[:-1]):
+                    hit = x
+                elif isinstance(x, (ast.If, ast.IfExp, ast.While)) and \
+                        isinstance(x.test, ast.Name) and x.test.id in vals:
+                    # `if v:` guarding the conversion is the literal /
+                    # variable decision of int_param: tolerated only when
+                    # the false branch leaves v itself (0 stays 0)
+                    continue
+                if hit is not None:
+                    par_ret = isinstance(getattr(hit, '_dt_parent', None),
+                                         ast.Return)
+                    last = hit.values[-1]
+                    harmless = isinstance(last, ast.Constant) and \
+                        last.value in (0, '')
+                    r.instance(callee.where, hit, 'falls back to 0'
+                               if harmless else 'TRUTHINESS')
+                    if not harmless:
+                        r.finding(callee.where, f'{norm(hit)}  '
+                                  f'({optname}=)', f'the value of the '
+                                  f'{optname}= option is replaced by '
+                                  f'`{norm(last)}` when it is merely false: '
+                                  f'an explicit {optname}=0 is treated as '
+                                  'if the option was not given', node=hit,
+                                  ctx=callee)
     r.require_floor(5)
     return r
 
